@@ -2,6 +2,7 @@ import RTV.Drv.Proto
 import RTV.Model.NumCfg
 import RTV.Model.Spell
 import RTV.Model.SpellEu
+import RTV.Model.SpellCjk
 import RTV.Gen.NumDigits
 import RTV.Gen.CharTables
 /-! Driver handlers for L3 `Dec` and L4 `Num` (C03, C04). Every operation name carries the prefix `n.`
@@ -19,6 +20,7 @@ import RTV.Gen.CharTables
   nts <tok cps>...              (English normalize_token_set)     -> tok;tok;...
   spell <n> <andHundred> <andFinal> <hyphen> <ord>                -> text cps | tok;tok;...
   spelleu <es|fr|pt|de|it|nl> <n>  (n < 1000)                    -> text cps | tok;tok;...
+  spellcjk <zh|ja> <n>          (n < 10000)                       -> text cps
   cjk <zh|ja> <cps>             (CJK get_int_value core)          -> n
   cfg <culture>                                                   -> decSep nonDecSep multiDec nonStd lf -/
 namespace RTV.Drv.NumD
@@ -141,6 +143,10 @@ def hSpellEu : Handler
     | none => "bad-culture"
   | _ => "bad-op"
 
+def hSpellCjk : Handler
+  | [w, n] => showCps (if w == "ja" then spellJa (parseNat n) else spellZh (parseNat n))
+  | _ => "bad-op"
+
 def hCjk : Handler
   | [w, s] => toString (cjkIntValue pyDigits (if w == "ja" then jaCjk else zhCjk) (parseCps s))
   | _ => "bad-op"
@@ -166,6 +172,7 @@ def dispatch (op : String) (args : List String) : Option String :=
   | "n.nts" => some (hNts args)
   | "n.spell" => some (hSpell args)
   | "n.spelleu" => some (hSpellEu args)
+  | "n.spellcjk" => some (hSpellCjk args)
   | "n.cjk" => some (hCjk args)
   | "n.cfg" => some (hCfg args)
   | _ => none
